@@ -15,6 +15,7 @@ open Backend
 def PopSuf (L : List Stmt) (s : BSt) : Prop := ∃ m, s.popLog = m ++ L
 
 theorem popSuf_closed (L : List Stmt) : PC.Closed (PopSuf L) where
+  lastFlush := fun _ _ h => h
   siteCnt := fun _ _ h => h
   emitInj := fun _ _ _ _ _ h => h
   clock := fun _ _ h => h
